@@ -118,6 +118,7 @@ const (
 	vNegPos        // -Pos(): minus the selection length at the time it was taken (lower bound for backward look-ahead indices)
 	vStrSet        // a string that is one of the constant strings of a package-level table (never reassigned: R-GLOBALS)
 	vTabInt        // table[c] & mask for a package-level [256]integer literal indexed by a byte value (character-class bits)
+	vLit           // a package-level table literal (lit), one of its rows (address or value), or the address of a field of a row
 )
 
 type AbsVal struct {
@@ -175,6 +176,11 @@ type AbsVal struct {
 	idx ssa.Value
 	// vStrSet
 	strs []string
+	// vByte: constants the value may hold instead of the linked input byte (`c = 0` on one branch, `c = l.scan()` on the other)
+	alt ByteSet
+	// vLit: lit is the literal (table or row); field >= 0 selects a field of the row (address form)
+	lit   *Lit
+	field int
 	// vTabInt (tabX is the index value)
 	itable *[256]int64
 	mask   int64
@@ -302,13 +308,15 @@ func eqAbs(a, b AbsVal) bool {
 		}
 		return true
 	case vByte:
-		return a.set == b.set && a.linked == b.linked && (!a.linked || a.coord == b.coord) && a.idx == b.idx
+		return a.set == b.set && a.linked == b.linked && (!a.linked || a.coord == b.coord) && a.idx == b.idx && a.alt == b.alt
 	case vIdx:
 		return a.ilo == b.ilo && a.ihi == b.ihi && a.safe == b.safe && a.coverOK == b.coverOK && (!a.coverOK || a.cover == b.cover) && a.back == b.back
 	case vNegPos:
 		return a.fresh == b.fresh
 	case vTabInt:
 		return a.itable == b.itable && a.mask == b.mask && a.tabX == b.tabX
+	case vLit:
+		return a.lit == b.lit && a.field == b.field
 	case vStrSet:
 		if len(a.strs) != len(b.strs) {
 			return false
@@ -376,9 +384,17 @@ func joinAbs(a, b AbsVal, wl int) AbsVal {
 		if a.k == vIdx && b.k == vRuneLen {
 			return joinIdx(a, runeLenIdx(b), widen)
 		}
-		// byte vs small int constant
+		// byte vs small int constant: the link to the input is kept, the constants become alternatives
 		if (a.k == vByte && b.k == vInt) || (a.k == vInt && b.k == vByte) {
-			return AbsVal{k: vByte, set: a.byteSet().or(b.byteSet())}
+			out := AbsVal{k: vByte, set: a.byteSet().or(b.byteSet())}
+			by, k := a, b
+			if a.k == vInt {
+				by, k = b, a
+			}
+			if by.linked && !k.byteSet().isTop() {
+				out.linked, out.coord, out.alt = true, by.coord, by.alt.or(k.byteSet())
+			}
+			return out
 		}
 		return top
 	}
@@ -395,7 +411,7 @@ func joinAbs(a, b AbsVal, wl int) AbsVal {
 			out.set = bsTop // a byte set that still grows after many visits: give up on it (finite but slow chains)
 		}
 		if a.linked && b.linked && a.coord == b.coord {
-			out.linked, out.coord = true, a.coord
+			out.linked, out.coord, out.alt = true, a.coord, a.alt.or(b.alt)
 		}
 		if a.idx == b.idx {
 			out.idx = a.idx
@@ -690,7 +706,7 @@ func (s *State) refineByte(k int, set ByteSet) {
 	for v, avP := range s.vals {
 		av := *avP
 		if av.k == vByte && av.linked && av.coord == k {
-			av.set = av.set.and(cur)
+			av.set = av.set.and(cur.or(av.alt))
 			s.setv(v, av)
 		}
 	}
